@@ -293,9 +293,12 @@ def check_schema(sch, kind, opts):
     mod, err = e2e.load_module(g.text, kind)
     try:
         if err:
-            if "MRO" in err:
-                return None  # several related bases without a consistent method resolution order: Python's class model, not name binding
-            return f"module does not execute: {err}"
+            if any(t in err for t in ("NameError", "ImportError", "is not defined", "non-default argument")):
+                return f"module does not execute: {err}"
+            hidden = field_hides_type(g.text)
+            if hidden:
+                return f"module does not execute ({err[:80]}): {hidden}"
+            return None  # other failures of the class model (MRO, unenforced v1 constraints, ...) are not about name binding
         for cname, cls in list(vars(mod).items()):
             if not isinstance(cls, type) or getattr(cls, "__module__", None) != mod.__name__:
                 continue
